@@ -20,7 +20,7 @@ from . import tlc, forkrun, lazyexec
 ALL_GROUPS = ["cov", "cryst", "neut", "act", "xray", "emis", "mag"]
 
 # behaviour flags of the model = state of the repaired code (see known_findings.json "fixed" entries)
-FIX = {"FixSetter": "FALSE", "FixEmis": "FALSE", "FixNsfPriv": "FALSE", "FixCSCopy": "FALSE"}
+FIX = {"FixSetter": "FALSE", "FixEmis": "FALSE", "FixNsfPriv": "FALSE", "FixCSCopy": "FALSE", "FixSpin": "FALSE"}
 
 
 def load_fix_flags():
@@ -54,7 +54,7 @@ def explore(groups, priv, max_asg=1, max_mut=1, timeout=900):
     res = tlc.run("MC_Lazy", "SPECIFICATION Spec\nINVARIANT Emit\n" + cfg(groups, priv, max_asg, max_mut),
                   workers=1, timeout=timeout)
     if res.rc != 0:
-        raise tlc.TLCError("MC_Lazy failed: " + res.out[-2000:])
+        raise tlc.TLCError("MC_Lazy failed: " + tlc.brief(res.out))
     graph = {}
     init = None
     for rec in res.printed():
@@ -93,10 +93,42 @@ def histories_from_graph(graph, init, rng, quick, max_loops=40):
     return hs
 
 
-def run_histories(hs, groups_for_digest=None, full=True, heap=False):
-    opts = {"full": full, "heap": heap, "alpha": True, "rep": True, "digest": True}
-    out = forkrun.map_fresh("ptv.forkrun", "_run_history", [(h, opts) for h in hs])
+def run_histories(hs, heap_for=()):
+    base = {"full": True, "heap": False, "alpha": True, "rep": True, "digest": True}
+    withheap = dict(base, heap=True)
+    heap_keys = set(canon(h) for h in heap_for)
+    out = forkrun.map_fresh("ptv.forkrun", "_run_history",
+                            [(h, withheap if canon(h) in heap_keys else base) for h in hs])
     return out
+
+
+def private_scenarios(rng, n, two=True):
+    """Hand-shaped C10 histories beyond the model graph: full private initialisation in random
+    orders interleaved with public reads, then parse / pickle / heap-identity observations."""
+    hs = []
+    reps = {"cov": ("eD", "cr"), "cryst": ("eD", "cs"), "neut": ("eD", "nt"), "act": ("iD", "na"),
+            "xray": ("ionD", "xr"), "emis": ("eD", "ka"), "mag": ("eD", "mf")}
+    for i in range(n):
+        tabs = ["T1", "T2"] if (two and i % 2) else ["T1"]
+        evs = [{"op": "create", "T": T} for T in tabs]
+        todo = [{"op": "init", "g": g, "T": T} for T in tabs for g in ALL_GROUPS]
+        pub = [{"op": "read", "T": "pub", "a": reps[g][0], "p": reps[g][1]} for g in rng.sample(ALL_GROUPS, rng.randint(0, 4))]
+        mix = todo + pub
+        rng.shuffle(mix)
+        evs += mix
+        T = rng.choice(tabs)
+        evs.append({"op": "parse", "T": T})
+        for a in ("eD", "iD", "ionD", "iion", "e0"):
+            evs.append({"op": "pickle", "T": T, "a": a})
+        if rng.random() < 0.7:
+            g = rng.choice(["cryst", "mag", "act", "neut", "xray"])
+            a, p = reps[g]
+            evs.append({"op": "mutate", "T": T, "a": a if g != "xray" else "eD", "p": p})
+            other = [x for x in tabs + ["pub"] if x != T]
+            for o in other:
+                evs.append({"op": "read", "T": o, "a": a, "p": p})
+        hs.append(evs)
+    return hs
 
 
 def canonical_record():
@@ -137,7 +169,7 @@ def validate(canon_rec, traces, nshards=16, timeout=1800):
         verdicts = {}
         for sh, r in zip(shards, results):
             if r.rc != 0:
-                raise tlc.TLCError("Trace_Lazy failed: " + r.out[-3000:])
+                raise tlc.TLCError("Trace_Lazy failed: " + tlc.brief(r.out))
             recs = r.printed()
             if len(recs) != len(sh):
                 raise tlc.TLCError("Trace_Lazy: %d verdicts for %d histories" % (len(recs), len(sh)))
@@ -169,7 +201,7 @@ def is_private(h):
     return any(ev.get("T", "pub") != "pub" for ev in h)
 
 
-def signature(h, v):
+def signature(h, v, steps=None):
     """Signature of a requirement failure used for known-finding matching.
 
     cause  = the events (as strings) that precede the failing step, reduced to the
@@ -179,7 +211,23 @@ def signature(h, v):
     step = v["step"]
     evs = h[:min(step, len(h))]
     failing = h[step - 1] if step <= len(h) else None
-    return {"clause": v["clause"], "got": v.get("got"), "want": v.get("want"),
+    # which group does the failing cell belong to?
+    cell = v.get("got", "") if failing is None else ""
+    if failing is not None and "p" in failing:
+        grp = lazyexec.GROUP_OF.get(failing["p"], "")
+    elif failing is not None and failing["op"] == "calc":
+        grp = "calc"
+    elif "." in cell:
+        last = cell.split(".")[-1]
+        grp = lazyexec.GROUP_OF.get(last, last)
+    else:
+        grp = ""
+    # in-place changes of a missing-data placeholder that precede the failing step
+    cause = ""
+    for e, st in zip(evs, steps or []):
+        if e["op"] == "mutate" and st["out"].get("cls") == "ok:P" and lazyexec.GROUP_OF.get(e["p"]) == grp:
+            cause = "mutate-placeholder:" + e["p"]
+    return {"clause": v["clause"], "got": v.get("got"), "want": v.get("want"), "group": grp, "cause": cause,
             "at": ev_str(failing) if failing else "final",
             "history": [ev_str(e) for e in evs]}
 
@@ -191,8 +239,9 @@ def process(ctx, configs, quick, only_private=None, extra_histories=()):
     all_h = []
     seen = set()
     model_bad = 0
-    for (groups, priv, ma, mm) in configs:
-        res, graph, init = explore(groups, priv, ma, mm)
+    with ThreadPoolExecutor(max_workers=8) as ex:
+        explored = list(ex.map(lambda c: explore(*c), configs))
+    for (groups, priv, ma, mm), (res, graph, init) in zip(configs, explored):
         ctx.tlc("MC_Lazy %s priv=%s" % ("+".join(groups), ",".join(priv) or "-"), res)
         nb = sum(1 for s in graph.values() if s["bad"] or s["shared"] or s["fresh"])
         model_bad += nb
@@ -212,7 +261,7 @@ def process(ctx, configs, quick, only_private=None, extra_histories=()):
     elif only_private is False:
         all_h = [h for h in all_h if not is_private(h)]
     canon_rec = canonical_record()
-    outs = run_histories(all_h)
+    outs = run_histories(all_h, heap_for=extra_histories)
     traces = []
     for i, (h, (st, res)) in enumerate(zip(all_h, outs)):
         if st != "ok":
@@ -238,7 +287,7 @@ def process(ctx, configs, quick, only_private=None, extra_histories=()):
                 ctx.cov["model_drift"].append({"history": [ev_str(e) for e in h], "step": v["drift"]["step"],
                                                "why": v["drift"]["why"]})
         for viol in v["viol"]:
-            rec = signature(h, viol)
+            rec = signature(h, viol, t["steps"])
             rec["kind"] = "lazy"
             rec["events"] = h
             ctx.violation(rec)
@@ -251,3 +300,36 @@ def process(ctx, configs, quick, only_private=None, extra_histories=()):
                        "(a) all its self-loop events, (b) each non-tree outgoing event; distinct = distinct event sequences; "
                        "each is executed in its own fresh interpreter and validated by TLC against PTLazy and PTServe")
     ctx.cov["exhaustive"] = not quick
+
+
+def replay(ctx, path):
+    """Re-execute the histories of a replay file and re-validate them."""
+    load_fix_flags()
+    with open(path) as f:
+        data = json.load(f)
+    hs = []
+    seen = set()
+    for v in data.get("violations", []):
+        h = v.get("events")
+        if h and canon(h) not in seen:
+            seen.add(canon(h))
+            hs.append(h)
+    hs = hs[:50]
+    canon_rec = canonical_record()
+    outs = run_histories(hs, heap_for=hs)
+    traces = [{"tid": i, "events": h, "steps": r[1]["steps"], "final": r[1]["final"]}
+              for i, (h, r) in enumerate(zip(hs, outs)) if r[0] == "ok"]
+    verdicts, results = validate(canon_rec, traces)
+    for r in results:
+        ctx.tlc("Trace_Lazy", r)
+    for t in traces:
+        ctx.cov["traces_validated_against_impl"] += 1
+        ctx.count("histories")
+        ctx.distinct(canon(t["events"]))
+        for viol in verdicts[t["tid"]]["viol"]:
+            rec = signature(t["events"], viol, t["steps"])
+            rec["kind"] = "lazy"
+            rec["events"] = t["events"]
+            ctx.violation(rec)
+        ctx.sample({"history": [ev_str(e) for e in t["events"]]})
+    return ctx.finish()
